@@ -636,7 +636,7 @@ func sameIface(a, b *types.Func) bool {
 
 // EvStoreField: a store to field name of struct type named.
 func EvStoreField(named *types.Named, field string) Ev {
-	return Ev{Name: "store:" + named.Obj().Name() + "." + field, M: func(in ssa.Instruction) bool {
+	return Ev{Name: "store:" + pinnedShortName(named) + "." + field, M: func(in ssa.Instruction) bool {
 		st, ok := in.(*ssa.Store)
 		if !ok {
 			return false
